@@ -98,7 +98,12 @@ type c04Env struct {
 	dead  multiaddr.Multiaddr
 }
 
-func newC04Env(c *vf.Ctx, r *rand.Rand) (*c04Env, error) {
+// newC04Env builds the publisher fronts; realTCP selects kernel sockets (transport-level faults as RST,
+// truncated responses and dead ports with full fidelity) instead of the in-memory network. Most cases use the
+// in-memory network so that the check does not depend on free ephemeral ports; one case in eight uses sockets.
+func newC04Env(c *vf.Ctx, r *rand.Rand, realTCP bool) (*c04Env, error) {
+	RealTCPFronts = realTCP
+	defer func() { RealTCPFronts = false }()
 	e := &c04Env{c: c, pub: NewStore(), id: Keys()["ed25519"][1], front: map[FrontMode]*Front{}}
 	var err error
 	e.chain, err = NewChain(r, e.pub, c04Head+1, e.id.ID, linkProto(multihash.SHA2_256, -1))
@@ -204,12 +209,18 @@ func runC04(c *vf.Ctx) {
 	if !c.Active(sub) {
 		return
 	}
-	env, err := newC04Env(c, c.Rand(sub, -1))
+	env, err := newC04Env(c, c.Rand(sub, -1), false)
 	if err != nil {
 		c.Fail(sub, -1, "harness-env", err.Error(), nil)
 		return
 	}
 	defer env.close()
+	envTCP, err := newC04Env(c, c.Rand(sub, -1), true)
+	if err != nil {
+		c.Fail(sub, -1, "harness-env", err.Error(), nil)
+		return
+	}
+	defer envTCP.close()
 	n := c.N(1200, 12000)
 	for i := 0; i < n; i++ {
 		if !c.Mine(sub, i) {
@@ -255,7 +266,12 @@ func runC04(c *vf.Ctx) {
 			k.Faults = append(k.Faults, c04Fault{kind, r.Intn(maxReq)})
 		}
 		c.Cur(sub, i, k.String())
-		c04One(c, sub, i, env, k)
+		if (i/c.NShards)%8 == 0 {
+			c.Inc("cases_over_real_sockets")
+			c04One(c, sub, i, envTCP, k)
+		} else {
+			c04One(c, sub, i, env, k)
+		}
 	}
 }
 
